@@ -170,8 +170,12 @@ func TwistExtrude3D(sdf SDF2, height, twist float64) SDF3 {
 	s.height = height / 2
 	s.extrude = TwistExtrude(height, twist)
 	// work out the bounding box
+	// the profile rotates about the z-axis: use the box vertex farthest from the origin
 	bb := sdf.BoundingBox()
-	l := bb.Max.Length()
+	l := 0.0
+	for _, v := range bb.Vertices() {
+		l = math.Max(l, v.Length())
+	}
 	s.bb = Box3{v3.Vec{-l, -l, -s.height}, v3.Vec{l, l, s.height}}
 	return &s
 }
@@ -198,7 +202,11 @@ func ScaleTwistExtrude3D(sdf SDF2, height, twist float64, scale v2.Vec) SDF3 {
 	// work out the bounding box
 	bb := sdf.BoundingBox()
 	bb = bb.Extend(Box2{bb.Min.Mul(scale), bb.Max.Mul(scale)})
-	l := bb.Max.Length()
+	// the profile rotates about the z-axis: use the box vertex farthest from the origin
+	l := 0.0
+	for _, v := range bb.Vertices() {
+		l = math.Max(l, v.Length())
+	}
 	s.bb = Box3{v3.Vec{-l, -l, -s.height}, v3.Vec{l, l, s.height}}
 	return &s
 }
